@@ -1726,7 +1726,7 @@ let rank_filter mode f bc rank garbage =
 (** val median_rank : arr -> z **)
 
 let median_rank bc =
-  Z.div (sumZ bc.data) (Zpos (XO XH))
+  Z.div (zlen (filter (fun v -> negb (Z.eqb v Z0)) bc.data)) (Zpos (XO XH))
 
 (** val mean_at : z -> arr -> arr -> z list -> z * z **)
 
@@ -1752,11 +1752,18 @@ let wrapd d x =
   | DBool -> if Z.eqb x Z0 then Z0 else Zpos XH
   | DInt t -> wrap t x
 
+(** val tm_sample : z -> arr -> z list -> z list -> z option **)
+
+let tm_sample mode f p off =
+  match retrieve mode f p off with
+  | Some v -> Some v
+  | None -> if Z.eqb mode extendConstant then Some Z0 else None
+
 (** val tm_at : dt -> z -> arr -> arr -> z list -> z **)
 
 let tm_at d mode f t p =
   fold_left (fun diff2 e ->
-    match retrieve mode f p (fst e) with
+    match tm_sample mode f p (fst e) with
     | Some v ->
       let tj = snd e in
       let delta = wrapd d (if Z.gtb v tj then Z.sub v tj else Z.sub tj v) in
@@ -1810,14 +1817,20 @@ let count_lt x l =
 let count_le x l =
   zlen (filter (fun y -> Z.leb y x) l)
 
+(** val window_sample : z -> arr -> z list -> z list -> z option **)
+
+let window_sample mode f p off =
+  match border_pos mode f.shape (padd p off) with
+  | Some q0 -> Some (aget f q0)
+  | None -> if Z.eqb mode m_constant then Some Z0 else None
+
 (** val ssd_spec : z -> arr -> arr -> z list -> z **)
 
 let ssd_spec mode f t p =
   sumZ
     (map (fun k ->
-      match border_pos mode f.shape (padd p (psub k (centre t.shape))) with
-      | Some q0 ->
-        Z.mul (Z.sub (aget f q0) (aget t k)) (Z.sub (aget f q0) (aget t k))
+      match window_sample mode f p (psub k (centre t.shape)) with
+      | Some v -> Z.mul (Z.sub v (aget t k)) (Z.sub v (aget t k))
       | None -> Z0) (all_positions t.shape))
 
 (** val assoc : z -> (z * z) list -> z option **)
@@ -4180,24 +4193,12 @@ let gbernsen_px f fmax fmin contrast_threshold gthresh =
 (** val soft_threshold_px : q -> q -> q **)
 
 let soft_threshold_px f tval =
-  let f0 =
-    qmult f
-      (if qltb tval (qabs f)
-       then { qnum = (Zpos XH); qden = XH }
-       else { qnum = Z0; qden = XH })
+  let above = qltb tval f in
+  let below = (&&) (qltb f (inject_Z Z0)) (qltb (qplus f tval) (inject_Z Z0))
   in
-  let f1 =
-    qminus f0
-      (qmult tval
-        (if qltb tval f0
-         then { qnum = (Zpos XH); qden = XH }
-         else { qnum = Z0; qden = XH }))
-  in
-  qplus f1
-    (qmult tval
-      (if qltb f1 (qopp tval)
-       then { qnum = (Zpos XH); qden = XH }
-       else { qnum = Z0; qden = XH }))
+  let thresholded = inject_Z Z0 in
+  let thresholded0 = if above then qminus f tval else thresholded in
+  if below then qplus f tval else thresholded0
 
 (** val uf_find : nat -> z list -> z -> z list * z **)
 
